@@ -13,6 +13,9 @@ Scenarios (every pair is forced to collide on one piece of shared state):
   S4 first render of a never-resolved component with js/css + Media (lazy media resolution, media caches)
   S5 first use of the lazily created caches and of component_node_subclasses_by_name
   S6 nested slot-bearing render vs a failing nested render     (component_context_cache, renderer cache, child attrs)
+  L1a / L1b line-granular cold-start scenarios (slot fills of one component; first document renders): EVERY executed
+     line of every file that holds module-level state (AST scan) is a scheduling point, every execution runs in a freshly forked process (lazily built globals
+     cold, also unknown ones), preemption bound 1 = the other thread runs to completion inside every one-line window.
 Oracle: each thread's result (output / exception class) equals its solo result; no deadlock;
 after join the render registries are empty and the LRU list/dict invariant holds.
 """
@@ -445,7 +448,70 @@ class S6(Scenario):
         return [raw(self.ta), raw(self.tb)]
 
 
-SCENARIOS = {c.name: c for c in (S1, S1c, S2, S3, S3b, S3c, S4, S4b, S5, S6, S7, S8)}
+class L1(Scenario):
+    """Line-granular, cold-start scenarios: EVERY executed source line of every stateful file of the package (see run_one) is a scheduling point and every
+    execution runs in a freshly forked process whose library state is as imported (nothing rendered yet), so lazily
+    built globals - also ones this harness does not know about - are cold in every execution.  Preemption bound 1:
+    for every line of either thread, the other thread runs to completion inside that window.  This is the exhaustive
+    form of the "per-call scratch object hoisted to module scope" / "lazily filled list, check-then-act" bug classes,
+    whose racy window contains no mention of a module-level name.  after(): a further render, alone, must still be right."""
+    all_lines = True
+    cold = True
+    bound_quick = 1
+    bound_thorough = 1
+
+
+class L1a(L1):
+    """two threads render DIFFERENT pages of the same slot-bearing component (fill text A / B, default content, slot data)"""
+    name = "L1a_lines_slot_fills"
+
+    def __init__(self):
+        _mk("l1a", "<div>{% slot 's' x=v default %}D{% endslot %}|{% slot 't' %}T{{ v }}{% endslot %}</div>", lambda self, v=None, **kw: {"v": v})
+
+    def _page(self, tag):
+        from django.template import Template
+
+        return Template("{% component 'l1a' v='" + tag + "' %}{% fill 's' data='d' %}" + tag * 4 + "-{{ d.x }}{% endfill %}{% endcomponent %}")
+
+    def setup(self):
+        self.reset_common()
+        return [_render_tpl(self._page("A"), {}), _render_tpl(self._page("B"), {})]
+
+    def after(self):
+        out = _norm(_render_tpl(self._page("C"), {})())
+        want = "<div>CCCC-C|TC</div>"
+        return residue_problems() + ([f"a later render, alone, gives {out!r} instead of {want!r}"] if out != want else [])
+
+
+class L1b(L1):
+    """two threads render two different components with inline js / css in document mode (first document renders of the process)"""
+    name = "L1b_lines_first_document_renders"
+
+    def __init__(self):
+        self.x = _mk("l1bx", "<html><head></head><body><div>x</div></body></html>", extra={"js": "console.log('x');", "css": ".x{}"})
+        self.y = _mk("l1by", "<html><head></head><body><div>y</div></body></html>", extra={"js": "console.log('y');", "css": ".y{}"})
+        self.z = _mk("l1bz", "<html><head></head><body><div>z</div></body></html>", extra={"js": "console.log('z');"})
+
+    def setup(self):
+        self.reset_common()
+        x, y = self.x, self.y
+        return [lambda: _norm_doc(x.render(type="document")), lambda: _norm_doc(y.render(type="document"))]
+
+    def after(self):
+        out = _norm_doc(self.z.render(type="document"))
+        problems = residue_problems()
+        n = out.count("django_components.min.js")
+        if n != 1 or "console.log('z')" not in out or "console.log('x')" in out or "console.log('y')" in out:
+            problems.append(f"a later document render, alone, is wrong (core script x{n}): {out[:300]!r}")
+        return problems
+
+
+def _norm_doc(html):
+    return re.sub(r'(?<=[\[ ,])"[A-Za-z0-9+/=]{16,}"', '"B64"', _norm(html))
+
+
+# the cold-start scenarios come first: their executions are forked from this process, which must not have rendered anything yet
+SCENARIOS = {c.name: c for c in (L1a, L1b, S1, S1c, S2, S3, S3b, S3c, S4, S4b, S5, S6, S7, S8)}
 _SC = {}
 _SET = {}
 
@@ -463,9 +529,38 @@ def get_set(media=True, extra_funcs=(), extra_attrs=()):
     return _SET[key]
 
 
+class _AllLines:
+    """every line of the traced files is a scheduling point"""
+
+    def __init__(self, files):
+        self.files = files
+
+    def __contains__(self, key):
+        return key[0] in self.files
+
+
+_PKG_FILES = []
+
+
+def _package_files():
+    if not _PKG_FILES:
+        for root, _dirs, fnames in os.walk(sched.package_dir()):
+            _PKG_FILES.extend(os.path.join(root, fn) for fn in fnames if fn.endswith(".py"))
+    return set(_PKG_FILES)
+
+
 def run_one(name, prefix, solo=None):
     sc = get_scenario(name)
-    lines, files, _ = get_set(sc.media, sc.extra_funcs, sc.extra_attrs)
+    if getattr(sc, "cold", False) and not _IN_CHILD[0]:
+        return _run_one_forked(name, prefix, solo)
+    if getattr(sc, "all_lines", False):
+        # every line of every *stateful* file: a file in which the AST scan finds a module-level mutable, a lazily created
+        # singleton or a `global` statement (recomputed from the working tree, so a file that gains such state joins the set).
+        # Files without any (the character-level parsers, 80 % of the executed lines) are pure functions of their arguments.
+        files = get_set(True)[1]
+        lines = _AllLines(files)
+    else:
+        lines, files, _ = get_set(sc.media, sc.extra_funcs, sc.extra_attrs)
     tasks = sc.setup()
     if solo is not None:
         s = sched.Scheduler([tasks[solo]], [], lines, files, id_prefixes=[chr(ord("b") + solo)])
@@ -473,6 +568,60 @@ def run_one(name, prefix, solo=None):
         s = sched.Scheduler(tasks, prefix, lines, files)
     x = s.run()
     x.after = sc.after()
+    return x
+
+
+_IN_CHILD = [False]
+
+
+def _run_one_forked(name, prefix, solo):
+    """the execution runs in a forked child (cold library state); the Execution comes back pickled"""
+    import pickle
+
+    r, w = os.pipe()
+    pid = os.fork()
+    if pid == 0:
+        code = 0
+        try:
+            os.close(r)
+            _IN_CHILD[0] = True
+            try:
+                x = run_one(name, prefix, solo)
+                payload = ("ok", x.choices, [(p.n_enabled, p.running_enabled, p.loc, p.tid) for p in x.points], x.results, x.deadlock,
+                           x.npoints_total, x.after)
+            except BaseException as e:  # noqa
+                payload = ("exc", type(e).__name__, str(e)[:500])
+            with os.fdopen(w, "wb") as f:
+                pickle.dump(payload, f)
+        except BaseException:  # noqa
+            code = 3
+        finally:
+            os._exit(code)
+    os.close(w)
+    import select
+    import signal
+
+    data = b""
+    with os.fdopen(r, "rb") as f:
+        while True:
+            ready, _, _ = select.select([f], [], [], 120)
+            if not ready:
+                os.kill(pid, signal.SIGKILL)
+                os.waitpid(pid, 0)
+                raise par.HarnessError(f"{name}: forked execution gave no answer within 120 s (prefix {prefix})")
+            chunk = os.read(f.fileno(), 1 << 16)
+            if not chunk:
+                break
+            data += chunk
+    os.waitpid(pid, 0)
+    if not data:
+        raise par.HarnessError(f"{name}: forked execution died without an answer (prefix {prefix})")
+    payload = pickle.loads(data)
+    if payload[0] == "exc":
+        raise par.HarnessError(f"{name}: forked execution raised {payload[1]}: {payload[2]}")
+    x = sched.Execution()
+    _, x.choices, pts, x.results, x.deadlock, x.npoints_total, x.after = payload
+    x.points = [sched.Point(*p) for p in pts]
     return x
 
 
@@ -574,7 +723,10 @@ def run(ctx):
                "(AST scan of the working tree); non-trivial = executions with >= 1 preemption (all but the default schedule)")
     ev.extra["scheduling_set_lines"] = len(lines)
     ev.extra["shared_globals_found"] = shared
+    only = os.environ.get("VERIF_C07_SCENARIOS")  # maintenance aid: comma separated name prefixes
     for name, cls in SCENARIOS.items():
+        if only and not any(name.startswith(o) for o in only.split(",")):
+            continue
         bound = cls.bound_thorough if thorough else cls.bound_quick
         import time as _time
 
